@@ -27,6 +27,7 @@ SEQUENTIAL = {
     + [T('rt-small', 'base', 'mode=rt', 'ns=0,1,2,3,4', 'pool=8', 'variants=2'),
        T('rt-31-255', 'base', 'mode=rt', 'ns=31,255', 'variants=2'),
        T('rt-256', 'base', 'mode=rt', 'ns=256', 'variants=2'),
+       T('rt-recycle', 'base', 'mode=recycle'),
        # the same explorer one size step smaller under ASan+UBSan
        T('matrix-asan', 'asan', 'mode=matrix', NOCOUNT),
        T('cast-asan', 'asan', 'mode=cast', NOCOUNT)]
@@ -45,6 +46,7 @@ SEQUENTIAL = {
        T('rt-mid', 'base', 'mode=rt', 'ns=5,8,17,18,19,31,32,64', 'kinds=2', 'variants=3'),
        T('rt-128-255', 'base', 'mode=rt', 'ns=128,255', 'kinds=2', 'variants=3'),
        T('rt-256', 'base', 'mode=rt', 'ns=256', 'kinds=2', 'variants=3'),
+       T('rt-recycle', 'base', 'mode=recycle', 'full=1'),
        T('matrix-asan', 'asan', 'mode=matrix', NOCOUNT),
        T('cast-asan', 'asan', 'mode=cast', NOCOUNT)]
     + shards('pairs-asan', 'asan', 8, 'mode=hist', 'depth=2', ALL_EPS, NOCOUNT)
